@@ -96,6 +96,7 @@ KANI_GROUPS = {
             dict(name="vk_trix_constant_candle", kind="bounded(Trix::default(), one concrete candle repeated 3 times)", timeout=600, props=["C08"]),
             dict(name="vk_rvi_constant_candle", kind="bounded(RelativeVigorIndex::default(), one concrete candle repeated 3 times)", timeout=600, props=["C08"]),
             dict(name="vk_dyn_forwarding_momentum_index", kind="bounded(MomentumIndex(2,1) through dyn dispatch: 3 symbolic steps, then over() on 2 more, then 1 step)", timeout=300, props=["C11"]),
+            dict(name="vk_init_fn_is_stream", kind="bounded(MomentumIndex(2,1): init_fn's boxed closure against init + next, 3 symbolic steps)", timeout=300, props=["C09"]),
             dict(name="vk_default_configs_validate", kind="complete", timeout=300, props=["C11"]),
             dict(name="vk_default_configs_init_a", kind="bounded(default configurations of 18 indicators, init on one concrete valid candle)", timeout=1200, tier="thorough", props=["C11"]),
             dict(name="vk_default_configs_init_b", kind="bounded(default configurations of the other 18 indicators, init on one concrete valid candle)", timeout=1200, tier="thorough", props=["C11"]),
@@ -303,7 +304,7 @@ PROPS["C07"] = dict(
 
 PROPS["C09"] = dict(
     verus=["combinators", "indicator_over", "compose_ma", "sma", "wma", "st_dev", "ema", "candle_methods", "mean_abs_dev", "swma", "lin_reg", "conv", "highest_lowest", "highest_lowest_index", "smm", "median_abs_dev"],
-    kani=["witness"],
+    kani=["witness", "indicators"],
     forbid_in_src=[(r"static\s+mut\b|thread_local!|\bRefCell\b|\bCell<|Atomic(U|I|Bool)|\brand::|UnsafeCell|lazy_static|OnceCell|OnceLock", "no shared or interior-mutable state"),
                    (r"\bHashMap\b|\bHashSet\b", "no iteration-order nondeterminism")],
     claim=("Sequence::call, Sequence::apply (in place; the iter_mut().for_each chain desugared by rule R8m), Method::over, Method::apply, Method::new_over, "
@@ -317,7 +318,7 @@ PROPS["C09"] = dict(
     assumptions=["bit-identity of identically built instances and independence of clones are properties of safe Rust without shared/interior-mutable "
                  "state; they are ASSUMED and backed only by the source scan reported under coverage.src_scan",
                  "into_fn (a boxed FnMut closure owning the instance) has an ASSUMED contract: the closure is identified with the instance it owns; "
-                 "a bounded Kani harness (vk_method_new_fn_is_stream) exercises the real closure; IndicatorConfig::init_fn is not under contract",
+                 "a bounded Kani harness (vk_method_new_fn_is_stream) exercises the real closure; IndicatorConfig::init_fn (init followed by into_fn) is not under a deductive contract; a bounded Kani harness (vk_init_fn_is_stream) runs its real closure against init + next",
                  "the iterator chain in Sequence::call is desugared by rule R8 over the slice-iterator model SliceIt"],
 )
 
